@@ -749,6 +749,9 @@ class Kernel:
         of.refs += 1
 
     def _maybe_eintr(self, what):
+        only = self.cfg.get('eintr_only')
+        if only is not None and what not in only:
+            return      # EINTR is injected only into calls whose callers have a retry loop of their own
         if self.eintr and self.chance(self.eintr, 'eintr'):
             self.fault_fired('eintr')
             raise InterruptedError(errno.EINTR, 'Interrupted system call (injected, %s)' % what)
@@ -790,11 +793,11 @@ class Kernel:
         data = bytes(data)
         n = len(data)
         self._maybe_eintr('write')
+        if n == 0:
+            return 0            # (Linux: a zero-length write on a pipe succeeds even without readers)
         if p.readers == 0:
             self.record('write', fd, 'EPIPE')
             raise BrokenPipeError(errno.EPIPE, 'Broken pipe')
-        if n == 0:
-            return 0
         atomic = n <= min(PIPE_BUF, p.cap)
         need = n if atomic else 1
 
